@@ -478,6 +478,15 @@ theorem wRead_trace : fromSamples .fixed {} wRead = .ok wReadFields := by decide
 set_option maxRecDepth 1000000 in
 theorem wRead_build : (toMarrow {} wReadFields wRead).isOk = true := by decide +kernel
 
+/-- non-vacuity of `to_schema_typed` / `fromSamples_room` / `fromSamples_safe_iff` / `fromSamples_safeSchema`: their only
+hypothesis is that tracing succeeded (`wRead_trace`; with a union and dictionaries: the `closureHypsB` examples above) -/
+example : Lemmas.C03.typedFs (Fields.ofList wReadFields) = true ∧ totalFs (Fields.ofList wReadFields) = true ∧
+    wideFs (Fields.ofList wReadFields) = true := to_schema_typed {} rfl wRead_trace
+
+example : safeSchema wReadFields = true ∧ ∀ root0, newRoot wReadFields = .ok root0 → room root0 = 2147483647 ∧ Safe root0 :=
+  ⟨fromSamples_safeSchema {} rfl rfl rfl wRead_trace, fun _ hnew => ⟨fromSamples_room {} rfl wRead_trace hnew,
+    (fromSamples_safe_iff {} rfl wRead_trace hnew).mpr (fromSamples_safeSchema {} rfl rfl rfl wRead_trace)⟩⟩
+
 /-- non-vacuity of `C06_closure` (and of `C06_closure_readback` inside it): a collection with a null, a two-byte UTF-8
 string and an empty string; tracing succeeds (`wRead_trace`) and EVERY hypothesis is discharged — `to_marrow` accepts the
 collection and reading the built arrays back returns the documented values of the samples, unconditionally -/
